@@ -8,12 +8,16 @@ import (
 	"errors"
 	"fmt"
 	"io"
+	"net"
 	"net/http"
 	"net/url"
+	"os"
 	"strconv"
 	"strings"
 	"testing"
 
+	"google.golang.org/grpc/codes"
+	"google.golang.org/grpc/status"
 	"pgregory.net/rapid"
 
 	"github.com/dadrus/heimdall/internal/config"
@@ -70,7 +74,10 @@ func genLeaf(t *rapid.T) genErr {
 
 		return genErr{Err: r, Desc: fmt.Sprintf("redirect(%d,%s)", r.Code, r.RedirectTo), Kinds: map[string]bool{"redirect": true}, Redir: r}
 	default:
-		f := rapid.SampledFrom([]string{"plain", "eof", "deadline", "urlerr", "struct", "evalerr"}).Draw(t, "foreign")
+		// (errors of the standard library and of others which end up as causes: an aborted or timed out call, a closed
+		// connection, a refused one, a syntax error of a decoder, ...)
+		f := rapid.SampledFrom([]string{"plain", "eof", "deadline", "urlerr", "struct", "evalerr", "canceled", "urlerr-canceled", "urlerr-deadline", "unexpected-eof",
+			"net-closed", "os-deadline", "dns", "json-syntax", "grpc-status"}).Draw(t, "foreign")
 
 		var e error
 
@@ -87,6 +94,24 @@ func genLeaf(t *rapid.T) genErr {
 			e = structErr{Msg: "value receiver error"}
 		case "evalerr":
 			e = &cellib.EvalError{}
+		case "canceled":
+			e = context.Canceled
+		case "urlerr-canceled":
+			e = &url.Error{Op: "Post", URL: "http://idp.local/introspect", Err: context.Canceled}
+		case "urlerr-deadline":
+			e = &url.Error{Op: "Post", URL: "http://idp.local/introspect", Err: context.DeadlineExceeded}
+		case "unexpected-eof":
+			e = io.ErrUnexpectedEOF
+		case "net-closed":
+			e = &net.OpError{Op: "read", Net: "tcp", Err: net.ErrClosed}
+		case "os-deadline":
+			e = os.ErrDeadlineExceeded
+		case "dns":
+			e = &net.DNSError{Err: "no such host", Name: "idp.local", IsNotFound: true}
+		case "json-syntax":
+			e = &json.SyntaxError{Offset: 3}
+		case "grpc-status":
+			e = status.Error(codes.Unavailable, "unavailable")
 		}
 
 		return genErr{Err: e, Desc: "foreign:" + f, Kinds: map[string]bool{}}
